@@ -431,6 +431,7 @@ func definitionNameRules(c *core.Ctx, r *core.Report, rule string) {
 		}
 		bad := ""
 		runs := 0
+		lsfConsulted := false
 		for _, key := range []string{"pkg/T", "custom", "foreign"} {
 			for _, alias := range []string{"", "custom"} {
 				// feasible keys: the singleton registry's key is the custom name when there is one (R3.i, R3.iii)
@@ -448,6 +449,7 @@ func definitionNameRules(c *core.Ctx, r *core.Report, rule string) {
 						return m
 					}
 					t.callee[lsf] = func(ip *absint.Interp, a []absint.Value) absint.Value {
+						lsfConsulted = true
 						storedKey = a[1]
 						v := ip.CallValue(a[2])
 						stored, _ = v.(*absint.Tok)
@@ -473,6 +475,11 @@ func definitionNameRules(c *core.Ctx, r *core.Report, rule string) {
 				if u != "" {
 					bad = "left the model: " + u
 				}
+			}
+		}
+		if bad != "" && (!lsfConsulted || strings.HasPrefix(bad, "left the model")) {
+			if b2, r2 := definitionRegistryByStateMemo(c, T); b2 == "" && r2 > 0 {
+				bad, runs = "", runs+r2 // (the registry observed through its own methods: a new definition is renamed to its key and found under it)
 			}
 		}
 		r.Check(bad == "", rule, "definition-name@"+core.FnName(gor), c.FnPos(gor), fmt.Sprintf("the definition registered under a key answers Name()==key whatever its default and custom names are (%d abstract runs) %s", runs, bad))
